@@ -22,8 +22,10 @@ def extra_c14(tier, seed, workdir, sh, GH, GM):
 
     def one(sh_):
         start, count = sh_
-        a = subprocess.run([GH, "vshard", str(start), str(count)], stdout=subprocess.PIPE, text=True).stdout.strip().splitlines()[-1]
-        b = subprocess.run([GM], input=f"vrange {start} {count} 1\n", stdout=subprocess.PIPE, text=True).stdout.split("\t")[0].strip()
+        rc, o = sh([GH, "vshard", str(start), str(count)], timeout=1500)
+        a = (o.strip().splitlines() or ["?"])[-1] if rc == 0 else "TIMEOUT-OR-CRASH"
+        rc, o = sh([GM], inp=f"vrange {start} {count} 1\n", timeout=3000)
+        b = o.split("\t")[0].strip()
         return start, count, a, b
 
     def first_diff(start, count):
